@@ -601,7 +601,10 @@ func (g *Gen) misc() (structs.MessageType, any, string) {
 		key := g.pick([]string{structs.SystemMetadataVirtualIPsEnabled, structs.SystemMetadataTermGatewayVirtualIPsEnabled, "other"})
 		op := structs.SystemMetadataUpsert
 		if g.chance(5) {
-			op = structs.SystemMetadataDelete
+			// the two feature flags are only ever SET by a leader (once every server supports the feature); switching one
+			// off under data that was written while it was on is not a history the servers produce, and the catalog does not
+			// claim to handle it (a virtual IP freed while a gateway still advertises it): deletes go to another key
+			op, key = structs.SystemMetadataDelete, "other"
 		}
 		return structs.SystemMetadataRequestType, &structs.SystemMetadataRequest{Datacenter: "dc1", Op: op, Entry: &structs.SystemMetadataEntry{Key: key, Value: "true"}}, "system-metadata"
 	case 3:
